@@ -8,6 +8,7 @@ import (
 	"encoding/asn1"
 	"encoding/json"
 	"fmt"
+	"math/big"
 	"os"
 	"sort"
 	"testing"
@@ -18,6 +19,7 @@ import (
 	"github.com/google/certificate-transparency-go/trillian/ctfe/cache/lru"
 	"github.com/google/certificate-transparency-go/trillian/ctfe/cache/noop"
 	ctx509 "github.com/google/certificate-transparency-go/x509"
+	"github.com/google/trillian"
 
 	"verifharness/ctfeenv"
 	"verifharness/pki"
@@ -37,6 +39,11 @@ type ShapeCase struct {
 		Trust   string `json:"trust"`
 		Wire    string `json:"wire"`
 		Order   string `json:"order"`
+		Valid   struct {
+			NB timeForm `json:"nb"`
+			NA timeForm `json:"na"`
+		} `json:"valid"`
+		Tbs string `json:"tbs"`
 	} `json:"shape"`
 	Admit        bool     `json:"admit"`
 	Submitted    []string `json:"submitted"`
@@ -45,6 +52,132 @@ type ShapeCase struct {
 	EntryType    string   `json:"entryType"`
 	FinalIssuer  string   `json:"finalIssuer"`
 	ViaPreIssuer bool     `json:"viaPreIssuer"`
+	// how notBefore / notAfter stand in the logged entry (EntryShapes!LoggedValidity) and the content octets of its
+	// serial number (0: not singled out)
+	Validity  []writtenTime `json:"validity"`
+	SerialLen int           `json:"serialLen"`
+}
+
+// timeForm mirrors EntryShapes!TimeForms (a calendar year and the first / a middle / the last second of it).
+type timeForm struct {
+	Y    int    `json:"y"`
+	Edge string `json:"edge"`
+}
+
+func (tf timeForm) instant() time.Time {
+	switch tf.Edge {
+	case "first":
+		return time.Date(tf.Y, 1, 1, 0, 0, 0, 0, time.UTC)
+	case "mid":
+		return time.Date(tf.Y, 6, 1, 12, 0, 0, 0, time.UTC)
+	case "last":
+		return time.Date(tf.Y, 12, 31, 23, 59, 59, 0, time.UTC)
+	}
+	panic("unknown edge " + tf.Edge)
+}
+
+// writtenTime mirrors EntryShapes!Written: tag and number of year digits of a time as the CA writes it.
+type writtenTime struct {
+	Tag  string `json:"tag"`
+	Yd   int    `json:"yd"`
+	Y    int    `json:"y"`
+	Edge string `json:"edge"`
+}
+
+// der is the DER element the written form stands for (the digits are written here, not by a time library).
+func (w writtenTime) der() []byte {
+	t := timeForm{w.Y, w.Edge}.instant()
+	rest := fmt.Sprintf("%02d%02d%02d%02d%02dZ", int(t.Month()), t.Day(), t.Hour(), t.Minute(), t.Second())
+	switch {
+	case w.Tag == "UTCTime" && w.Yd == 2:
+		return append([]byte{0x17, 13}, []byte(fmt.Sprintf("%02d", w.Y%100)+rest)...)
+	case w.Tag == "GeneralizedTime" && w.Yd == 4:
+		return append([]byte{0x18, 15}, []byte(fmt.Sprintf("%04d", w.Y)+rest)...)
+	}
+	panic("written time form " + w.Tag)
+}
+
+var stdValidity = [2]timeForm{{2020, "first"}, {2040, "first"}}
+
+// tbsFormOpts renders EntryShapes!TbsForms.
+func tbsFormOpts(form string, o *pki.Opts) *big.Int {
+	switch form {
+	case "", "std":
+	case "serialOne":
+		o.SerialBig = big.NewInt(1)
+	case "serial7f":
+		o.SerialBig = big.NewInt(0x7f)
+	case "serial80":
+		o.SerialBig = big.NewInt(0x80)
+	case "serialMax20":
+		o.SerialBig = new(big.Int).Sub(new(big.Int).Lsh(big.NewInt(1), 159), big.NewInt(1))
+	case "bigOidExt":
+		o.Extra = append(o.Extra, pkix.Extension{Id: asn1.ObjectIdentifier{2, 999, 2147483647, 1}, Value: []byte{0x04, 0x02, 0xbe, 0xef}})
+	default:
+		panic("unknown TBS form " + form)
+	}
+	return o.SerialBig
+}
+
+// fieldForms compares validity and serial number of an entry (a leaf_input) with the form the specification says the
+// CA wrote (EntryShapes!FieldsVerbatim); it returns the violated clause and what was found.
+func fieldForms(c ShapeCase, serial *big.Int, leafInput []byte, pre bool) (clause, msg string) {
+	if len(c.Validity) != 2 {
+		return "", ""
+	}
+	nb, na, ser, err := loggedFields(leafInput, pre)
+	switch {
+	case err != nil:
+		return "logged-fields", "the entry cannot be taken apart: " + err.Error()
+	case !bytes.Equal(nb, c.Validity[0].der()) || !bytes.Equal(na, c.Validity[1].der()):
+		return "validity-form", fmt.Sprintf("validity of the logged entry is written as tag %#x %q / tag %#x %q; the CA wrote %s with %d year digits / %s with %d year digits (%q / %q)",
+			nb[0], nb[2:], na[0], na[2:], c.Validity[0].Tag, c.Validity[0].Yd, c.Validity[1].Tag, c.Validity[1].Yd, c.Validity[0].der()[2:], c.Validity[1].der()[2:])
+	case c.SerialLen != 0 && (len(ser) != c.SerialLen || new(big.Int).SetBytes(ser).Cmp(serial) != 0):
+		return "serial-form", fmt.Sprintf("serial number of the logged entry is %x (%d content octets); the CA wrote %x in %d", ser, len(ser), serial, c.SerialLen)
+	}
+	return "", ""
+}
+
+// loggedFields reads validity and serial number out of a served leaf_input with cryptobyte only: the two time
+// elements verbatim and the content octets of the serial number INTEGER.
+func loggedFields(leafInput []byte, pre bool) (nb, na, serial []byte, err error) {
+	if len(leafInput) < 15 {
+		return nil, nil, nil, fmt.Errorf("short leaf_input")
+	}
+	b := leafInput[12:]
+	if pre {
+		if len(b) < 35 {
+			return nil, nil, nil, fmt.Errorf("short precert entry")
+		}
+		b = b[32:]
+	}
+	n := int(b[0])<<16 | int(b[1])<<8 | int(b[2])
+	if len(b) < 3+n {
+		return nil, nil, nil, fmt.Errorf("short entry vector")
+	}
+	var parts *ref.CertParts
+	if pre {
+		parts, err = ref.SplitTBS(b[3 : 3+n])
+	} else {
+		parts, err = ref.SplitCert(b[3 : 3+n])
+	}
+	if err != nil {
+		return nil, nil, nil, err
+	}
+	v := parts.Mid[0]
+	if len(v) < 2 || v[0] != 0x30 || int(v[1]) != len(v)-2 || len(v) < 4 {
+		return nil, nil, nil, fmt.Errorf("validity is not a short-form SEQUENCE")
+	}
+	v = v[2:]
+	l1 := 2 + int(v[1])
+	if l1 > len(v) {
+		return nil, nil, nil, fmt.Errorf("notBefore overruns the validity")
+	}
+	ser := parts.Pre[len(parts.Pre)-2]
+	if len(ser) < 3 || ser[0] != 0x02 || int(ser[1]) != len(ser)-2 {
+		return nil, nil, nil, fmt.Errorf("serial number is not a short-form INTEGER")
+	}
+	return v[:l1], v[l1:], ser[2:], nil
 }
 
 func (c ShapeCase) fp() string {
@@ -55,6 +188,12 @@ func (c ShapeCase) fp() string {
 	fp := fmt.Sprintf("%s:%s:%s:%s:%s:%s", c.Shape.Kind, c.Shape.Iss, c.Shape.Tail, c.Shape.Quirk, c.Shape.Wire, st)
 	if c.Shape.Order != "" && c.Shape.Order != "std" {
 		fp += ":" + c.Shape.Order
+	}
+	if v := c.Shape.Valid; v.NB.Y != 0 && [2]timeForm{v.NB, v.NA} != stdValidity {
+		fp += fmt.Sprintf(":validity=%d..%d", v.NB.Y, v.NA.Y)
+	}
+	if c.Shape.Tbs != "" && c.Shape.Tbs != "std" {
+		fp += ":" + c.Shape.Tbs
 	}
 	return fp
 }
@@ -81,7 +220,7 @@ func TestShapes(t *testing.T) {
 	if err != nil {
 		t.Fatal(err)
 	}
-	rep := vh.NewReport("cctfe-shapes-"+prop, "every case of EntryShapes.tla (entry kind x issuance x submitted tail incl. a cross-signed twin of a trusted root x key type x non-fatal oddity x chain storage mode x trusted set) built, submitted to a real instance, sequenced, read back and decoded; non-trivial = distinct (kind, issuance, tail, oddity, storage class)")
+	rep := vh.NewReport("cctfe-shapes-"+prop, "every case of EntryShapes.tla (entry kind x issuance x submitted tail incl. a cross-signed twin of a trusted root x key type x non-fatal oddity x chain storage mode x trusted set x validity years on both sides of 1950 / 2000 / 2050 and 9999 x serial number / extension identifier forms) built, submitted to a real instance, sequenced, read back and decoded; non-trivial = distinct (kind, issuance, tail, oddity, storage class, validity years, field form)")
 	r1 := pki.NewRoot(pki.Opts{CN: "R1"})
 	r2 := pki.NewRoot(pki.Opts{CN: "R2", KeyType: "p384"})
 	nodes := map[string]*pki.Node{"R1": r1, "R2": r2}
@@ -134,6 +273,7 @@ func TestShapes(t *testing.T) {
 			ts       uint64
 			pathDERs [][]byte
 			ok       bool
+			serial   *big.Int
 		}
 		var ms []*made
 		for n, ci := range idxs {
@@ -155,12 +295,16 @@ func TestShapes(t *testing.T) {
 					o.DNS = nil // the odd subjectAltName replaces the generated one
 				}
 			}
+			if c.Shape.Valid.NB.Y != 0 {
+				o.NotBefore, o.NotAfter = c.Shape.Valid.NB.instant(), c.Shape.Valid.NA.instant()
+			}
+			serial := tbsFormOpts(c.Shape.Tbs, &o)
 			leaf := nodes[c.Submitted[1]].Issue(o)
 			if c.Shape.Wire == "laxSerial" || c.Shape.Wire == "laxSerialTrailing" {
 				leaf = pki.NonMinimalSerial(leaf)
 			}
 			nodes["L"] = leaf
-			m := &made{c: c, sub: &Sub{ID: fmt.Sprintf("c%d", ci), Pre: c.Shape.Kind == "precert", Shape: c.fp(), PreIssuer: c.ViaPreIssuer}}
+			m := &made{c: c, serial: serial, sub: &Sub{ID: fmt.Sprintf("c%d", ci), Pre: c.Shape.Kind == "precert", Shape: c.fp(), PreIssuer: c.ViaPreIssuer}}
 			for _, id := range c.Submitted {
 				m.sub.Chain = append(m.sub.Chain, nodes[id].DER)
 			}
@@ -209,6 +353,7 @@ func TestShapes(t *testing.T) {
 				}
 			}
 			w.SetTick(n)
+			ncalls := be.NumCalls()
 			code, rsp, body, err := env.AddChain(m.sub.Chain, m.sub.Pre)
 			if err != nil {
 				viol("submit-panic", err.Error())
@@ -220,7 +365,17 @@ func TestShapes(t *testing.T) {
 			}
 			m.ts = rsp.Timestamp
 			if msg := w.CheckSCT(m.sub, rsp, w.Ms(n)); msg != "" {
-				viol("sct", msg)
+				clause := "sct"
+				// which field of the entry handed to the backend is not as the CA wrote it (if it is one of those the
+				// specification singles out)
+				for _, call := range be.CallsSince(ncalls) {
+					if req, ok := call.Req.(*trillian.QueueLeafRequest); ok && req.Leaf != nil {
+						if fc, fm := fieldForms(c, m.serial, req.Leaf.LeafValue, m.sub.Pre); fc != "" {
+							clause, msg = "sct-"+fc, msg+"; in the leaf handed to the backend "+fm
+						}
+					}
+				}
+				viol(clause, msg)
 				continue
 			}
 			m.ok = true
@@ -266,6 +421,10 @@ func TestShapes(t *testing.T) {
 			}
 			if !bytes.Equal(leafIn, wantLeaf) {
 				viol("leaf-input", "served leaf_input is not the entry an independent client derives from the submission")
+			}
+			// validity and serial number stand in the logged entry as the specification says the CA wrote them
+			if clause, msg := fieldForms(c, m.serial, leafIn, m.sub.Pre); clause != "" {
+				viol(clause, msg)
 			}
 			if !bytes.Equal(extra, wantExtra) {
 				viol("extra-data", fmt.Sprintf("served extra_data is not the specification's path %v", c.Path))
